@@ -8,7 +8,7 @@ class Check(EngineCheck):
     prop = "C02"
     module = "LLBuild.Props.C02"
     theorems = [E + "C02_once", E + "C02_create_needs_reason", E + "C02_reason_true",
-                E + "C02_interrupted_is_never_built", E + "C02_invalid_is_rule_verdict",
+                E + "C02_interrupted_is_never_built", E + "C02_invalid_is_rule_verdict", E + "C02_computedAt_changes_only_on_change",
                 E + "engine_fingerprint_matches_model"]
     mix = [(0.6, {}), (0.2, {"cancel": True}), (0.2, {"threads": True})]
     budget = (300, 3000)
